@@ -267,7 +267,7 @@ func init() {
 		ID: "C17", Level: "exploration", HangBound: 900 * time.Second,
 		QuickBudget: 170 * time.Second, ThoroughBudget: 24 * time.Minute,
 		Pre: u.WriteCorpusCache,
-		Rule: "every program of <=k statements over the layout fragment FL (leaves, 24 shapes, containers depth<=3, 16 connection forms, 4 directions, 8 constant nears, grids, sequence diagrams, label/icon positions, 3d/multiple/stroke/size styles, special names, boards) laid out through d2lib.Compile with dagre and with ELK, plus a name family (every object name of <=2 symbols over a 37-symbol alphabet in the forms N, N -> b, c: {N}) and every compilable .d2 file of the repository; non-trivial = the diagram compiles, the engine supports its features and it has at least one object; outcome = multiset of laid-out boxes and route lengths",
+		Rule: "every program of <=k statements over the layout fragment FL (leaves, 24 shapes, containers depth<=3, 16 connection forms, 4 directions, 8 constant nears, grids, sequence diagrams, label/icon positions, 3d/multiple/stroke/size styles, special names, boards) laid out through d2lib.Compile with dagre and with ELK, plus a name family (every object name of <=2 symbols over a 39-symbol alphabet in the forms N, N -> b, c: {N}) and every compilable .d2 file of the repository; non-trivial = the diagram compiles, the engine supports its features and it has at least one object; outcome = multiset of laid-out boxes and route lengths",
 		Assumptions: []string{
 			"diagrams that use a feature the engine's plugin declares unsupported (d2plugin.FeatureSupportCheck: near-object, container dimensions/descendant connections under dagre, top/left) are outside the space: the CLI rejects them",
 			"names the d2ast.RawString key encoder does not reproduce exactly are skipped (quoting is C05/C06)",
